@@ -5,6 +5,7 @@ package main
 import (
 	"encoding/binary"
 	"math"
+	"math/big"
 
 	"github.com/gcash/bchutil"
 )
@@ -177,6 +178,20 @@ func runC17(c *Ctx) {
 			}
 		}
 	}
+	// planner (untrusted): amounts whose exact quotient a / 10^(u+8) lies within 2^-12 ulp of the midpoint between two
+	// doubles -- a conversion that rounds twice (through an intermediate of more than 53 bits) is wrong exactly there
+	for _, u := range units {
+		for _, v := range nearMidpointAmounts(c, u, c.Pick(20, 200)) {
+			for _, x := range []int64{v, -v} {
+				c.Call(Event{"op": "ToUnit", "a": idec(x), "u": u})
+				c.Call(Event{"op": "Format", "a": idec(x), "u": u})
+				if u == 0 {
+					c.Call(Event{"op": "RoundTrip", "a": idec(x)})
+					c.Call(Event{"op": "Format", "a": idec(x), "u": 0, "str": true})
+				}
+			}
+		}
+	}
 	// MulF64: exact halves (ties), thirds, tiny and large multipliers, negatives
 	muls := []float64{0.5, -0.5, 1.5, 0.25, 1.0 / 3, 2.0 / 3, 1e-8, 0.1, 2.5, -2.5, 1e3, 0, 0.49999999999999994, 1}
 	for k := 0; k < c.Pick(2000, 40000); k++ {
@@ -193,4 +208,41 @@ func runC17(c *Ctx) {
 		}
 		c.Call(Event{"op": "MulF64", "a": idec(v), "fbits": f64bits(f)})
 	}
+}
+
+// nearMidpointAmounts searches random amounts a for which a / 10^(u+8) is extremely close to (but not on) the midpoint
+// of two neighbouring doubles.  Only the choice of inputs comes from here; the specification computes the correctly
+// rounded quotient itself.
+func nearMidpointAmounts(c *Ctx, u int, want int) []int64 {
+	k := u + 8
+	if k <= 0 {
+		return nil
+	}
+	den := new(big.Float).SetPrec(300).SetInt(new(big.Int).Exp(big.NewInt(10), big.NewInt(int64(k)), nil))
+	var out []int64
+	thr := new(big.Float).SetPrec(300).SetFloat64(math.Ldexp(1, -12))
+	for tries := 0; tries < 3000000 && len(out) < want; tries++ {
+		a := c.Rng.Int63n(2100000000000000) + 1
+		q := new(big.Float).SetPrec(300).Quo(new(big.Float).SetPrec(300).SetInt64(a), den)
+		f, acc := q.Float64()
+		if acc == big.Exact {
+			continue
+		}
+		lo, hi := f, f
+		if acc == big.Above { // f > q
+			lo = math.Nextafter(f, math.Inf(-1))
+		} else {
+			hi = math.Nextafter(f, math.Inf(1))
+		}
+		blo, bhi := new(big.Float).SetPrec(300).SetFloat64(lo), new(big.Float).SetPrec(300).SetFloat64(hi)
+		mid := new(big.Float).SetPrec(300).Add(blo, bhi)
+		mid.Quo(mid, big.NewFloat(2))
+		d := new(big.Float).SetPrec(300).Sub(q, mid)
+		d.Abs(d)
+		d.Quo(d, new(big.Float).SetPrec(300).Sub(bhi, blo))
+		if d.Sign() != 0 && d.Cmp(thr) < 0 {
+			out = append(out, a)
+		}
+	}
+	return out
 }
